@@ -24,6 +24,8 @@ def time_ns():
 
 
 def sleep(secs):
+  if secs < 0:
+    raise ValueError('sleep length must be non-negative')
   s = sched._current
   if s is None:
     return
